@@ -8,6 +8,7 @@ import shutil
 import time
 
 import kani_run
+import prop_parser
 from common import VERIF, REPO, scratch, Undecided, write_evidence, write_replay, finish
 
 HARNESS = os.path.join(VERIF, 'kani/parser/nth_error.rs')
@@ -49,8 +50,12 @@ def main(prop, tier):
         prepare(REPO, d)
         with cf.ThreadPoolExecutor(max_workers=6) as pool:
             fc = [pool.submit(run_canary, c, i) for i, c in enumerate(CANARIES)]
+            # deductive part: the parser unit carries the invariant `errs_ok` (every recorded error points at a whole token of the
+            # parser or is empty at the end of the text) through all grammar functions and the tree builder, for all inputs
+            fded = pool.submit(prop_parser.c20_part, os.path.join(scratch(), 'unit_c20'))
             results = kani_run.run_many(d, HARNESSES, (), 900, jobs=2)
             can = [f.result() for f in fc]
+            ded = fded.result()
     except (Undecided, OSError) as e:
         return undecided(prop, tier, t0, str(e))
     bad = [r for r in results if r['status'] in ('ERROR', 'TIMEOUT')]
@@ -69,6 +74,15 @@ def main(prop, tier):
                                     'crates/syntax/src/parser.rs (%s)' % ('Parser::error' if 'error' in r['harness'] else 'Parser::nth'),
                                     'kani 0.68.0 / cbmc 6.11', json.dumps(fcheck), wit, './check C20 --replay <this file>')
                 violations.append((path, wit is not None))
+    if ded['status'] == 'failed':
+        seen = set()
+        for f in ded['failures']:
+            if f['fn'] in seen:
+                continue
+            seen.add(f['fn'])
+            path = write_replay(prop, f['id'], f['where'], 'verus 0.2026.09.13', '\n'.join(x['rendered'] for x in ded['failures'] if x['fn'] == f['fn']), None,
+                                './check C20 --replay <this file>')
+            violations.append((path, False))
     if all(r['status'] == 'SUCCESSFUL' for r in results):
         if any(c['status'] == 'NOT-TRIPPED' for c in can):
             guard.append('canary not detected: %s' % [c['name'] for c in can if c['status'] == 'NOT-TRIPPED'])
@@ -84,11 +98,17 @@ def main(prop, tier):
            'decided_clause': 'every syntax error is located at the current token (its whole range) or is empty at the end of the text; nothing else of C20 is decided',
            'functions_under_contract': ['Parser::error', 'Parser::nth'],
            'canaries': can,
-           'checker_cmd': results[0]['cmd']}
+           'checker_cmd': results[0]['cmd'],
+           'deductive_part': {k: v for k, v in ded.items() if k != 'failures'}}
+    if ded['status'].startswith('verified'):
+        cov['obligations'], cov['discharged'] = ded['verified'] + ded['errors'], ded['verified']
     write_evidence(prop, tier, 'model_checking', cov,
-                   ['logos token spans tile 0..len on char boundaries (assumption i of DESIGN.md 3.1): with it, the proved error ranges are in bounds and on boundaries',
+                   ['deductive part (Verus, the parser unit of C01/C02): the frame of every grammar function and of the tree builder carries `old.errs_ok() ==> new.errs_ok()`, and the end-to-end lemma verif_parse concludes that EVERY error of the returned Parse points at the whole range of one of the parser\'s tokens or is the empty range at the end of the text - for all inputs - given the contract of Parser::error, which is what the Kani harness error_contract checks on the real text; a grammar function that pushed to `errors` itself, or an error recorded with any other range, fails a named obligation (attributed to C20 by re-verifying with the invariant switched off)',
+                    'logos token spans tile 0..len on char boundaries (assumption i of DESIGN.md 3.1): with it, the proved error ranges are in bounds and on boundaries',
                     'all other answer kinds of C20 (hover, definitions, references, highlights, rename edits, completions, semantic highlights) take their ranges from rowan cursors inside crate ide, which neither verifier ingests: NOT decided',
                     'Kani 0.68 / CBMC 6.11'], time.time() - t0, len(violations))
+    if ded['status'] == 'undecided' and not violations:
+        finish(prop, [], [], 'deductive part (parser unit) not decided: %s' % ded.get('why', '')[:600])
     if guard:
         finish(prop, [], [], 'vacuity guard failed: ' + '; '.join(guard))
     finish(prop, violations, [])
